@@ -273,9 +273,42 @@ def check_history(ctx, comps):
         ctx.report(f'history-raises:{type(e).__name__}@{raising_site(e)[0]}', f'{e!r}', w)
 
 
+RAW_TEXTS = ['cafe\u0301', 'e\u0301cole', 'A\u030angstro\u0308m', '\u212b', '\u2126', '\ufb01n', '\u1112\u1161\u11ab', '\uf900', 'stra\u00dfe', '\u0130stanbul',
+             # text that looks like a URI scheme / host:port at the start of a relative name (no scheme is stripped)
+             'sensor:1', 'localhost:6363', 'urn:isbn:0451450523', 'ndn:x', 'http:', 'a+b.c-d:e',
+             'na\u00efve', '\u65e5\u672c\u8a9e', '\U0001f600', 'Z\u0301\u0323', '\u00c5', 'I\u0307']
+
+
+def check_raw_text(ctx):
+    """Names given as TEXT with raw (unescaped) non-ASCII characters - among them sequences that are not in a Unicode normal form:
+    the component is the UTF-8 octets of exactly the text given, in every text input form."""
+    for t in RAW_TEXTS:
+        exp = [rc.comp(8, b'pre'), rc.comp(8, t.encode('utf-8')), rc.comp(8, b'x')]
+        forms = {'uri': lambda: Name.from_str('/pre/' + t + '/x'), 'uri-no-slash': lambda: Name.from_str('pre/' + t + '/x'),
+                 'normalize-uri': lambda: Name.normalize('/pre/' + t + '/x'), 'normalize-list': lambda: Name.normalize(['pre', t, 'x']),
+                 'normalize-mixed': lambda: Name.normalize([rc.comp(8, b'pre'), t, b'\x08\x01x']),
+                 'to-bytes': lambda: Name.from_bytes(Name.to_bytes('/pre/' + t + '/x'))}
+        forms['uri-first-component-no-slash'] = lambda: [rc.comp(8, b'pre')] + list(Name.from_str(t + '/x'))
+        forms['normalize-first-component-no-slash'] = lambda: [rc.comp(8, b'pre')] + list(Name.normalize(t + '/x'))
+        for label, fn in forms.items():
+            w = {'text': t, 'codepoints': [hex(ord(ch)) for ch in t], 'form': label}
+            try:
+                got = [bytes(c) for c in fn()]
+            except Exception as e:   # noqa
+                ctx.report(f'raw-text-name-raises:{label}:{type(e).__name__}', f'{e!r}', w)
+                continue
+            ctx.case(('raw-text', t, label), nontrivial=True)
+            ctx.event('raw-text-name')
+            if got != exp:
+                ctx.report(f'raw-text-name-differs:{label}', 'a name given as text is not the UTF-8 octets of the text given', dict(w, got=[c.hex() for c in got]))
+        if not Name.is_prefix(['pre', t], '/pre/' + t + '/x') or Name.to_bytes(['pre', t, 'x']) != rc.enc_name(exp):
+            ctx.report('raw-text-name-differs:cross-form', 'text forms of one name disagree', {'text': t})
+
+
 def run(ctx):
     ctx.rule = RULE
     rng = ctx.rng
+    check_raw_text(ctx)
     pool = []
     n_names = ctx.n(12000, 1600000)
     # fixed boundary corpus
